@@ -367,6 +367,11 @@ impl<'r> G<'r> {
             6..=8 => 2,
             _ => 3,
         };
+        if !singles_only && self.rng.chance(1, 5) {
+            if let Some(r) = self.growing_records(seqlen, pflag, pms, hints, lookups, sigpres || pflag != 0) {
+                return r;
+            }
+        }
         let mut recs = Vec::new();
         for _ in 0..n {
             let seq = if !self.core && self.rng.chance(1, 15) { seqlen + self.rng.below(2) } else { self.rng.below(seqlen) };
@@ -383,6 +388,41 @@ impl<'r> G<'r> {
             recs.push((seq as u16, li));
         }
         recs
+    }
+
+    /// Two records: a multiple substitution that lengthens the matched sequence, then a record
+    /// whose sequence index lies in the part that only exists after the first one
+    /// (index in [original glyph count, current count)).
+    fn growing_records(&mut self, seqlen: usize, pflag: u16, pms: Option<u16>, hints: &Hints, lookups: &mut Vec<Lookup>, sigpres: bool) -> Option<Vec<(u16, u16)>> {
+        let s0 = self.rng.below(seqlen);
+        let src: Vec<u16> = hints.get(s0)?.iter().copied().take(3).collect();
+        if src.is_empty() {
+            return None;
+        }
+        let m = self.rng.urange(2, 3);
+        let cov = self.cov_of(src);
+        let seqs: Vec<Vec<u16>> = cov.glyphs.clone().into_iter().map(|g| (0..m).map(|_| self.out_glyph(g, sigpres)).collect()).collect();
+        let (f0, m0) = if self.rng.bool() { (pflag, pms) } else { (0, None) };
+        let t = seqlen + self.rng.below(m - 1);
+        let h_t: Vec<u16> = if t <= s0 + m - 1 { seqs.iter().map(|q| q[t - s0]).collect() } else { hints.get(t - (m - 1)).cloned().unwrap_or_default() };
+        let l0 = self.finish_lookup(2, f0, m0, vec![Sub::Multiple { cov, seqs }]);
+        lookups.push(l0);
+        let i0 = (lookups.len() - 1) as u16;
+        let (f1, m1) = if self.rng.bool() { (pflag, pms) } else { (0, None) };
+        let lt = *self.rng.pick(&[1u16, 1, 2, 3]);
+        let l1 = self.simple(lt, f1, m1, sigpres, &vec![h_t]);
+        lookups.push(l1);
+        let i1 = (lookups.len() - 1) as u16;
+        let mut recs = vec![(s0 as u16, i0), (t as u16, i1)];
+        if self.rng.chance(1, 4) {
+            // an unrelated record in front (does not change the length: single substitution)
+            let s = self.rng.below(seqlen);
+            let h: Hints = hints.iter().skip(s).cloned().collect();
+            let l = self.simple(1, 0, None, sigpres, &h);
+            lookups.push(l);
+            recs.insert(0, (s as u16, (lookups.len() - 1) as u16));
+        }
+        Some(recs)
     }
 
     fn seq_glyphs(&mut self, lo: usize, hi: usize, flag: u16, ms: Option<u16>) -> Vec<u16> {
